@@ -13,6 +13,7 @@ import (
 	"net"
 	"runtime/debug"
 	"sync"
+	"time"
 
 	"go.sia.tech/core/types"
 )
@@ -283,3 +284,117 @@ func specFromSeed(seed uint64, salt string) types.Specifier {
 	copy(s[:], r.str(r.rangeInt(1, 16)))
 	return s
 }
+
+// ---- an in-memory duplex connection with exact deadlock detection ------------------------------
+//
+// memPipe behaves like a socket pair with unbounded buffers: Write never blocks, Read
+// blocks until data or a hang-up arrives, and data written before a Close is still
+// delivered. rhp2 runs exactly one goroutine per side, so "both sides blocked in Read
+// with nothing in flight" (or one side blocked while the other has finished its script
+// without hanging up) can never resolve. memPipe recognises that state exactly, under
+// its own lock and without timers, severs the connection and reports it: a reader that
+// waits for bytes its peer never sends is a framing failure, not a reason to wait for
+// the test timeout.
+
+type memPipe struct {
+	mu         sync.Mutex
+	cond       *sync.Cond
+	q          [2][]byte // q[i]: bytes in flight towards side i
+	closed     [2]bool   // closed[i]: side i has hung up
+	waiting    [2]bool
+	idle       [2]bool
+	deadlocked bool
+}
+
+type memConn struct {
+	p    *memPipe
+	side int
+}
+
+func newMemPipe() (a, b net.Conn, p *memPipe) {
+	p = &memPipe{}
+	p.cond = sync.NewCond(&p.mu)
+	return &memConn{p, 0}, &memConn{p, 1}, p
+}
+
+func (p *memPipe) sever() {
+	p.deadlocked = true
+	p.closed = [2]bool{true, true}
+	p.cond.Broadcast()
+}
+
+// phase resets the "script finished" marks before a new pair of scripts starts.
+func (p *memPipe) phase() {
+	p.mu.Lock()
+	p.idle = [2]bool{}
+	p.mu.Unlock()
+}
+
+// finished marks side's script as done.
+func (p *memPipe) finished(side int) {
+	p.mu.Lock()
+	p.idle[side] = true
+	o := 1 - side
+	if p.waiting[o] && len(p.q[o]) == 0 && !p.closed[0] && !p.closed[1] {
+		p.sever()
+	}
+	p.mu.Unlock()
+}
+
+func (p *memPipe) isDeadlocked() bool {
+	p.mu.Lock()
+	defer p.mu.Unlock()
+	return p.deadlocked
+}
+
+func (c *memConn) Read(b []byte) (int, error) {
+	p, me, o := c.p, c.side, 1-c.side
+	p.mu.Lock()
+	defer p.mu.Unlock()
+	if len(b) == 0 {
+		return 0, nil
+	}
+	for len(p.q[me]) == 0 {
+		if p.closed[me] {
+			return 0, io.ErrClosedPipe
+		} else if p.closed[o] {
+			return 0, io.EOF
+		}
+		if (p.waiting[o] && len(p.q[o]) == 0) || p.idle[o] {
+			p.sever()
+			continue
+		}
+		p.waiting[me] = true
+		p.cond.Wait()
+		p.waiting[me] = false
+	}
+	n := copy(b, p.q[me])
+	p.q[me] = p.q[me][n:]
+	return n, nil
+}
+
+func (c *memConn) Write(b []byte) (int, error) {
+	p, me, o := c.p, c.side, 1-c.side
+	p.mu.Lock()
+	defer p.mu.Unlock()
+	if p.closed[me] || p.closed[o] {
+		return 0, io.ErrClosedPipe
+	}
+	p.q[o] = append(p.q[o], b...)
+	p.cond.Broadcast()
+	return len(b), nil
+}
+
+func (c *memConn) Close() error {
+	c.p.mu.Lock()
+	c.p.closed[c.side] = true
+	c.p.cond.Broadcast()
+	c.p.mu.Unlock()
+	return nil
+}
+
+func (c *memConn) LocalAddr() net.Addr                { return fakeAddr("mem:0") }
+func (c *memConn) RemoteAddr() net.Addr               { return fakeAddr("mem:1") }
+func (c *memConn) SetDeadline(t time.Time) error      { return nil }
+func (c *memConn) SetReadDeadline(t time.Time) error  { return nil }
+func (c *memConn) SetWriteDeadline(t time.Time) error { return nil }
